@@ -952,6 +952,150 @@ def rule_halo_rebuild(w):
         must(fn, is_call_on("_indices", "clear"), "_indices.clear()", short(fn) + "/_indices.clear", keys=("this._indices",))
 
 
+# -------------------------------------------------------------------------------------------------
+# recursion-scheme wrappers: every level does its own work on every path
+# -------------------------------------------------------------------------------------------------
+
+def _side_effecting(fn, n):
+    """call of a FEAT function that can change state: non-const member call, or a function taking a non-const reference / pointer"""
+    callee = n.get("callee") or ""
+    if not callee.startswith("FEAT::") or callee.endswith("FEAT::assertion") or n.get("noreturn"):
+        return False
+    if n.get("k") in ("Construct", "TempObj", "OpCall"):
+        return False
+    if n.get("k") == "MCall" and not n.get("a") and re.match(r"get_|size$|begin$|end$|data$", n.get("n") or ""):
+        return False          # accessor
+    if n.get("k") == "MCall" and not n.get("cstatic") and not n.get("cconst"):
+        return True
+    for t in n.get("pt", []):
+        ty = fn.type(t) or ""
+        if (ty.endswith("&") or ty.endswith("*")) and not ty.startswith("const"):
+            return True
+    return False
+
+
+def rule_wrapper_levels(w):
+    ck = w.ck
+    n_inst = 0
+    for fn in w.fns:
+        if fn.tk not in ("inst", "spec") or not re.search(r"kernel/geometry/(patch_|intern/patch_index)", fn.file) or fn.cfg is None:
+            continue
+        base = ikinds.strip_targs(fn.cls or "")
+        calls = [n for n in fn.nodes() if featlib.is_call(n) and _side_effecting(fn, n)]
+        rec = [n for n in calls if (n.get("callee") or "").rsplit("::", 1)[-1] == fn.name and n.get("ccls") != fn.cls
+               and ikinds.strip_targs((n.get("callee") or "").rsplit("::", 1)[0]) == base and base]
+        if not rec:
+            continue
+        leaf = [n for n in calls if n not in rec]
+        fk = w.fk(fn)
+        for n in rec + leaf:
+            nid = n.get("i")
+            cname = ikinds.strip_targs(n.get("callee") or "").replace("FEAT::Geometry::", "").replace("Intern::", "")
+            what = "the lower level %s" % cname if n in rec else cname
+            obj = render(strip(n.get("obj"))) if n.get("k") == "MCall" and n.get("obj") is not None else ""
+            key = "%s/%s%s" % (short(fn), (obj + ".") if obj and obj != "this" else "", cname.rsplit("::", 1)[-1] if n not in rec else "lower-level " + fn.name)
+            ok, bad = fn.cfg.must_pass(lambda x, nid=nid: x.get("i") == nid)
+            n_inst += 1
+            if ok:
+                ck.ob("E4.wrapper-all-levels", key, True, "every path through %s executes %s" % (fn.name, what), fn.file, n.get("l"))
+            elif fk.unknown:
+                ck.incomplete("E4.wrapper-all-levels", "%s: %s" % (key, "; ".join(x[0] for x in fk.unknown)))
+            else:
+                ck.ob("E4.wrapper-all-levels", key, False, "%s is not executed on every path through %s (it sits behind a short-circuit / early exit): the wrapper recursion "
+                      "must let every dimension do its own work, otherwise the lists of this dimension keep their previous (empty / stale) contents whenever the other "
+                      "operand already decides the result" % (what, fn.name), fn.file, n.get("l"))
+    if n_inst == 0:
+        ck.incomplete("E4.wrapper-all-levels", "no recursion-scheme wrapper instantiated")
+
+
+# -------------------------------------------------------------------------------------------------
+# joint refinement: every halo / patch mesh part of a root node is refined, never copied
+# -------------------------------------------------------------------------------------------------
+
+def rule_halo_refined(w):
+    ck = w.ck
+    fns = w.find(r"Geometry::RootMeshNode<.*>::refine_unique$")
+    if not fns:
+        ck.incomplete("E7.halo-refined", "RootMeshNode::refine_unique not instantiated")
+    for fn in fns:
+        fk = w.fk(fn)
+        sd = shape_dim(fn.cls)
+        adds = [e for e in fk.events if e.kind == "call" and e.name in ("add_halo", "add_patch") and len(e.node.get("a", [])) == 2]
+        seen = set()
+        for e in adds:
+            key = "%s/%s" % (short(fn), e.name)
+            arg = strip(e.node["a"][1])
+            # unwrap moves / unique_ptr conversions
+            for _ in range(4):
+                if arg is not None and arg.get("k") in ("Construct", "TempObj", "Call") and len(arg.get("a", [])) == 1 and \
+                        (arg.get("k") != "Call" or (arg.get("callee") or "") in ("std::move", "std::forward")):
+                    arg = strip(arg["a"][0])
+            loops = [f for f in e.frames if f.kind == "loop"]
+            if len(loops) != 1 or loops[0].loop is None or loops[0].loop.kind != "foreach":
+                ck.incomplete("E7.halo-refined", "%s: %s is not called from a loop over the node's mesh-part map" % (key, e.name))
+                continue
+            elem = loops[0].loop.var
+            if arg is not None and arg.get("k") == "Null":
+                verdict = ("null", None)
+            elif arg is not None and arg.get("k") == "MCall" and arg.get("n") == "make_unique" and strip(arg.get("obj")).get("k") == "Ref":
+                v = fk.locals.get(strip(arg["obj"]).get("d"))
+                init = strip(v.get("init")) if v is not None and v.get("init") is not None else None
+                okr = init is not None and init.get("k") in ("Construct", "TempObj") and re.search(r"StandardRefinery<FEAT::Geometry::MeshPart<", init.get("callee") or "") \
+                    and len(init.get("a", [])) == 2 and any(x.get("k") == "Ref" and x.get("d") == elem for x in walk(init["a"][0]))
+                verdict = ("refined", None) if okr else ("unknown", "make_unique() of %s" % render(init))
+            elif arg is not None and any(x.get("k") == "MCall" and x.get("n") == "clone" for x in walk(arg)) and any(x.get("k") == "Ref" and x.get("d") == elem for x in walk(arg)):
+                verdict = ("copied", render(arg)[:80])
+            else:
+                verdict = ("unknown", render(arg)[:80] if arg is not None else "?")
+            sub = "%s#%s" % (key, verdict[0])
+            if sub in seen:
+                continue
+            seen.add(sub)
+            if verdict[0] == "unknown":
+                ck.incomplete("E7.halo-refined", "%s: the mesh part handed to %s (%s) is neither the refinery's product, nor nullptr, nor a copy" % (key, e.name, verdict[1]))
+            elif verdict[0] in ("refined", "null"):
+                ck.ob("E7.halo-refined", "%s/%s" % (key, verdict[0]), True, "%s receives %s" % (e.name, "StandardRefinery<MeshPart>(part, mesh).make_unique()" if verdict[0] == "refined" else
+                                                                                             "nullptr for an absent part"), fn.file, e.node.get("l"))
+            else:
+                # a copy is only right for a part without any entity of dimension >= 1 (vertices keep their indices under refinement)
+                dims = set()
+                opaque = []
+                for f in e.frames:
+                    if f.kind != "if" or f.branch != "then":
+                        continue
+                    for cj in _conj(f.node.get("c")):
+                        cj = strip(cj)
+                        if cj.get("k") == "Bin" and cj.get("op") == "==":
+                            l, r = strip(cj["lhs"]), strip(cj["rhs"])
+                            if r.get("k") == "MCall":
+                                l, r = r, l
+                            z = fk.size(r)
+                            if l.get("k") == "MCall" and l.get("n") == "get_num_entities" and len(l.get("a", [])) == 1 and z == Lin.const(0) \
+                                    and any(x.get("k") == "Ref" and x.get("d") == elem for x in walk(l.get("obj"))):
+                                dv = fk.size(l["a"][0])
+                                if dv is not None and dv.is_const():
+                                    dims.add(dv.c)
+                                    continue
+                        if any(x.get("k") == "MCall" and x.get("n") in ("get_num_entities", "size", "empty") for x in walk(cj)):
+                            opaque.append(render(cj))
+                if 1 in dims:
+                    ck.ob("E7.halo-refined", "%s/copied" % key, True, "a part without edges (get_num_entities(1) == 0) is copied: closed mesh parts then hold vertices only, which keep "
+                          "their indices under refinement", fn.file, e.node.get("l"))
+                elif opaque:
+                    ck.incomplete("E7.halo-refined", "%s: copy under the condition %s, which is not a test get_num_entities(d) == 0" % (key, "; ".join(opaque)))
+                else:
+                    ck.ob("E7.halo-refined", "%s/copied" % key, False, "for shape dimension %s the part is copied (%s) instead of refined under the condition 'no entities of dimension %s'; "
+                          "a part that still has edges (patches touching along an edge) must be refined: its copy lacks the edge midpoints and child edges on the fine level" % (
+                              sd, verdict[1], sorted(dims) if dims else "-"), fn.file, e.node.get("l"))
+
+
+def _conj(c):
+    c = strip(c)
+    if c is not None and c.get("k") == "Bin" and c.get("op") == "&&":
+        return _conj(c["lhs"]) + _conj(c["rhs"])
+    return [c] if c is not None else []
+
+
 def run(tier):
     ck = Check("C12", tier)
     ck.rule("E1.member-binding", "the halo builders are wired to the right sets: PatchHaloBuild<Shape,codim> binds the patch part's target set of the face dimension and the "
@@ -980,6 +1124,11 @@ def run(tier):
     ck.rule("E7.halo-rebuild", "extract_patch reuses one PatchHaloFactory for all neighbour ranks, so every path through PatchHaloFactory::build, every "
             "PatchHaloBuildWrapper<.,d>::build and PatchHaloBuild::build must rebuild (clear) the list of its dimension and of the lower dimensions "
             "(an early return leaves the previous neighbour's entities in the halo)", 9)
+    ck.rule("E4.wrapper-all-levels", "recursion-scheme wrappers over the entity dimensions (PatchInvMapWrapper, PatchHaloBuildWrapper, PatchPartMapHolder, PatchIndexMapping*): "
+            "in every function that recurses to the lower level, the lower-level call and every state-changing call of the own level lie on EVERY path (CFG must-pass); "
+            "a call in the short-circuited operand of ||/&& or behind an early return leaves that dimension's lists unbuilt", 40)
+    ck.rule("E7.halo-refined", "RootMeshNode::refine_unique hands every existing halo / patch mesh part to StandardRefinery<MeshPart>; a copy instead of a refinement is only "
+            "admissible under get_num_entities(1) == 0 (no edges), for every shape dimension the driver instantiates (2D and 3D)", 8)
     ck.rule("E12.bcast-agree", "PartiIterative::build_elems_at_rank: sending and receiving branch broadcast identical counts into sufficiently long arrays and build graphs of identical dimensions", 1)
     ck.rule("E7.parti-precond", "PartiIterative checks num_patches > 0 and num_elems >= num_patches before drawing distinct centre cells", 2)
     w = World(ck, tier)
@@ -991,6 +1140,8 @@ def run(tier):
     rule_parti_level(w)
     rule_merge(w)
     rule_halo_rebuild(w)
+    rule_wrapper_levels(w)
+    rule_halo_refined(w)
     ck.assume("TargetSet: entries are indices of the parent (base) mesh entities, one per part entity; IndexSet(i,j): i < get_num_entities(), value < get_index_bound(); "
               "Graph accessor contracts as in C19")
     ck.assume("documented parameter roles: tsh = target set holder of the patch mesh part (into the base mesh), ish = index set holder of the base mesh, ranks_at_elem = one node per "
